@@ -234,12 +234,18 @@ def correspond(model_ok, res):
                                       'f:[* TO 3}', 'z OR "i j"~1', 'x']]
     sessions = [({}, [t16, t16b], "F16"), ({}, hist, "history"),
                 ({"not_analyzed_fields": ["text", "f"]}, hist, "history")] + E.builder_sessions(r, T, n)
+    # texts with escaped quotes / backslashes / specials at their ends; homonymous fields under different
+    # parents with different analysed-ness, one builder reused in both orders
+    sessions += E.escaped_sessions(r, T, n // 4) + E.homonym_sessions(r, T, n // 2)
     stats = {"judged": 0, "leaf_clauses": 0, "F16": 0, "kinds": {}, "spec_cases": 0}
     spec_cases, spec_payloads = [], []
 
     def oracle(cfg, tree, outcome, info):
         out = []
-        payload = {"config": repr(cfg), "tree": info["desc"], "observed": repr(outcome)[:400]}
+        payload = {"config": repr(cfg), "tree": info["desc"], "observed": repr(outcome)[:400],
+                   "query": str(tree)[:400],
+                   # the calls the same builder instance made before this one (replayable history)
+                   "earlier_calls_on_this_builder": [str(t)[:300] for t in sessions[info["session"]][1][:info["call"]]]}
         # identical on every call of the same or of a fresh builder
         if outcome != info["fresh"]:
             out.append((dict(payload, why="used and fresh builder differ", fresh=repr(info["fresh"])[:400]), None))
@@ -303,8 +309,11 @@ Definition chk2 (c : es_config * item * list json) : bool :=
     res.rule = ("sessions of 1-10 calls on one builder instance (each also on a fresh instance, first tree "
                 "repeated at the end): fixed histories interleaving phrases with slop, ranges of different "
                 "shapes and words; parsed corpus x fixed configurations; random supported trees, supported trees "
-                "with odd values and trees of every class x random configurations; non-trivial = distinct "
-                "(configuration, tree) with more than one node")
+                "with odd values and trees of every class x random configurations; phrases / words starting or "
+                "ending with escaped quotes, backslashes and specials on analysed and not analysed fields; the "
+                "same relative field name at top level and under object / nested parents with different "
+                "analysed-ness and options, group and dotted spelling, one builder reused in both orders; "
+                "non-trivial = distinct (configuration, tree) with more than one node")
     res.distribution["oracle"] = stats
     return res
 
